@@ -43,10 +43,22 @@ def plan(tier, seed):
   return specs
 
 
+_HEALTHY = []
+
+
 def _run(ctx, chk, n):
+  """Runs the check on a batch that contains the modulus at a varying
+  position among healthy keys (checks must judge every key of a batch)."""
   key = gen.rsa_key(n)
+  if not _HEALTHY:
+    r = ctx.rng('healthy-neighbours')
+    _HEALTHY.extend(rsagen.healthy(r, 1024)[0] for _ in range(3))
+  pos = ctx.counters.get('evaluations', 0) % 4
+  batch = [gen.rsa_key(h) for h in _HEALTHY[:pos]] + [key] + [
+      gen.rsa_key(h) for h in _HEALTHY[pos:pos + 1]]
+  ctx.count('batch_position:%d' % pos)
   try:
-    chk.Check([key])
+    chk.Check(batch)
   except Exception as e:  # pylint: disable=broad-except
     ctx.violation('check-raised-%s@%s' % (type(e).__name__, chk.check_name),
                   repr(e), {'n': n})
